@@ -18,6 +18,7 @@ package encode
 //@   ensures result == uvarintLen(size) && result <= 5 && blen(b) == L + result && L >= 0
 //@   ensures isUvarint(bytesOf(bobj(b)), L, result, size)
 //@   ensures forall i :: 0 <= i && i < L ==> bytesOf(bobj(b))[i] == old(bytesOf(bobj(b)))[i]
+//@   ensures blen(b) >= old(blen(b)) && bobj(b) > 0
 
 //@ func encodeSizeType
 //@   safety[C08]
@@ -29,6 +30,7 @@ package encode
 //@   ensures result == uvarintLen(size) + 1 && blen(b) == L + result && L >= 0
 //@   ensures isUvarint(bytesOf(bobj(b)), L, result - 1, size) && bytesOf(bobj(b))[L + result - 1] == type_
 //@   ensures forall i :: 0 <= i && i < L ==> bytesOf(bobj(b))[i] == old(bytesOf(bobj(b)))[i]
+//@   ensures blen(b) >= old(blen(b)) && bobj(b) > 0
 
 // ---- bool, byte
 
@@ -42,6 +44,7 @@ package encode
 //@   ensures[C08,C10] result1 == nil && result0 == 1 && blen(b) == L + 1
 //@   ensures[C08,C10] bytesOf(bobj(b))[L] == ite(v, 1, 2)
 //@   ensures[C08] forall i :: 0 <= i && i < L ==> bytesOf(bobj(b))[i] == old(bytesOf(bobj(b)))[i]
+//@   ensures blen(b) >= old(blen(b)) && bobj(b) > 0
 
 //@ func EncodeByte
 //@   safety[C08]
@@ -53,6 +56,7 @@ package encode
 //@   ensures[C08,C10] result1 == nil && result0 == 2 && blen(b) == L + 2
 //@   ensures[C08,C10] bytesOf(bobj(b))[L] == v && bytesOf(bobj(b))[L + 1] == 3
 //@   ensures[C08] forall i :: 0 <= i && i < L ==> bytesOf(bobj(b))[i] == old(bytesOf(bobj(b)))[i]
+//@   ensures blen(b) >= old(blen(b)) && bobj(b) > 0
 
 // ---- integers: varint(zigzag(v)) ++ type
 
@@ -66,6 +70,7 @@ package encode
 //@   ensures[C08,C10] result1 == nil && result0 == uvarintLen(zigzag(v)) + 1 && blen(b) == L + result0
 //@   ensures[C08,C10] isUvarint(bytesOf(bobj(b)), L, result0 - 1, zigzag(v)) && bytesOf(bobj(b))[L + result0 - 1] == 10
 //@   ensures[C08] forall i :: 0 <= i && i < L ==> bytesOf(bobj(b))[i] == old(bytesOf(bobj(b)))[i]
+//@   ensures blen(b) >= old(blen(b)) && bobj(b) > 0
 
 //@ func EncodeInt32
 //@   safety[C08]
@@ -78,6 +83,7 @@ package encode
 //@   ensures[C08,C10] isUvarint(bytesOf(bobj(b)), L, result0 - 1, zigzag(v)) && bytesOf(bobj(b))[L + result0 - 1] == 11
 //@   ensures[C08] forall i :: 0 <= i && i < L ==> bytesOf(bobj(b))[i] == old(bytesOf(bobj(b)))[i]
 //@   canary[C08] result0 <= 3
+//@   ensures blen(b) >= old(blen(b)) && bobj(b) > 0
 
 //@ func EncodeInt64
 //@   safety[C08]
@@ -89,6 +95,7 @@ package encode
 //@   ensures[C08,C10] result1 == nil && result0 == uvarintLen(zigzag(v)) + 1 && blen(b) == L + result0
 //@   ensures[C08,C10] isUvarint(bytesOf(bobj(b)), L, result0 - 1, zigzag(v)) && bytesOf(bobj(b))[L + result0 - 1] == 12
 //@   ensures[C08] forall i :: 0 <= i && i < L ==> bytesOf(bobj(b))[i] == old(bytesOf(bobj(b)))[i]
+//@   ensures blen(b) >= old(blen(b)) && bobj(b) > 0
 
 //@ func EncodeUint16
 //@   safety[C08]
@@ -100,6 +107,7 @@ package encode
 //@   ensures[C08,C10] result1 == nil && result0 == uvarintLen(v) + 1 && blen(b) == L + result0
 //@   ensures[C08,C10] isUvarint(bytesOf(bobj(b)), L, result0 - 1, v) && bytesOf(bobj(b))[L + result0 - 1] == 20
 //@   ensures[C08] forall i :: 0 <= i && i < L ==> bytesOf(bobj(b))[i] == old(bytesOf(bobj(b)))[i]
+//@   ensures blen(b) >= old(blen(b)) && bobj(b) > 0
 
 //@ func EncodeUint32
 //@   safety[C08]
@@ -111,6 +119,7 @@ package encode
 //@   ensures[C08,C10] result1 == nil && result0 == uvarintLen(v) + 1 && blen(b) == L + result0
 //@   ensures[C08,C10] isUvarint(bytesOf(bobj(b)), L, result0 - 1, v) && bytesOf(bobj(b))[L + result0 - 1] == 21
 //@   ensures[C08] forall i :: 0 <= i && i < L ==> bytesOf(bobj(b))[i] == old(bytesOf(bobj(b)))[i]
+//@   ensures blen(b) >= old(blen(b)) && bobj(b) > 0
 
 //@ func EncodeUint64
 //@   safety[C08]
@@ -122,6 +131,7 @@ package encode
 //@   ensures[C08,C10] result1 == nil && result0 == uvarintLen(v) + 1 && blen(b) == L + result0
 //@   ensures[C08,C10] isUvarint(bytesOf(bobj(b)), L, result0 - 1, v) && bytesOf(bobj(b))[L + result0 - 1] == 22
 //@   ensures[C08] forall i :: 0 <= i && i < L ==> bytesOf(bobj(b))[i] == old(bytesOf(bobj(b)))[i]
+//@   ensures blen(b) >= old(blen(b)) && bobj(b) > 0
 
 // ---- fixed-width binaries: raw bytes ++ type
 
@@ -135,6 +145,7 @@ package encode
 //@   ensures[C08,C10] result1 == nil && result0 == 9 && blen(b) == L + 9
 //@   ensures[C08,C10] (forall i :: 0 <= i && i < 8 ==> bytesOf(bobj(b))[L + i] == v[i]) && bytesOf(bobj(b))[L + 8] == 30
 //@   ensures[C08] forall i :: 0 <= i && i < L ==> bytesOf(bobj(b))[i] == old(bytesOf(bobj(b)))[i]
+//@   ensures blen(b) >= old(blen(b)) && bobj(b) > 0
 
 //@ func EncodeBin128
 //@   safety[C08]
@@ -146,6 +157,7 @@ package encode
 //@   ensures[C08,C10] result1 == nil && result0 == 17 && blen(b) == L + 17
 //@   ensures[C08,C10] (forall i :: 0 <= i && i < 16 ==> bytesOf(bobj(b))[L + i] == v[i]) && bytesOf(bobj(b))[L + 16] == 31
 //@   ensures[C08] forall i :: 0 <= i && i < L ==> bytesOf(bobj(b))[i] == old(bytesOf(bobj(b)))[i]
+//@   ensures blen(b) >= old(blen(b)) && bobj(b) > 0
 
 //@ func EncodeBin256
 //@   safety[C08]
@@ -157,6 +169,7 @@ package encode
 //@   ensures[C08,C10] result1 == nil && result0 == 33 && blen(b) == L + 33
 //@   ensures[C08,C10] (forall i :: 0 <= i && i < 32 ==> bytesOf(bobj(b))[L + i] == v[i]) && bytesOf(bobj(b))[L + 32] == 32
 //@   ensures[C08] forall i :: 0 <= i && i < L ==> bytesOf(bobj(b))[i] == old(bytesOf(bobj(b)))[i]
+//@   ensures blen(b) >= old(blen(b)) && bobj(b) > 0
 
 // ---- bytes, string, struct trailer
 
@@ -174,6 +187,7 @@ package encode
 //@   ensures[C08,C10] n <= 2147483647 ==> isUvarint(bytesOf(bobj(b)), L + n, uvarintLen(n), n) && bytesOf(bobj(b))[L + result0 - 1] == 50
 //@   ensures[C08] n > 2147483647 ==> result1 != nil && blen(b) == L
 //@   ensures[C08] forall i :: 0 <= i && i < L ==> bytesOf(bobj(b))[i] == old(bytesOf(bobj(b)))[i]
+//@   ensures blen(b) >= old(blen(b)) && bobj(b) > 0
 
 //@ func EncodeString
 //@   safety[C08]
@@ -190,6 +204,7 @@ package encode
 //@   ensures[C08,C10] n <= 2147483647 ==> isUvarint(bytesOf(bobj(b)), L + n + 1, uvarintLen(n), n) && bytesOf(bobj(b))[L + result0 - 1] == 60
 //@   ensures[C08] n > 2147483647 ==> result1 != nil && blen(b) == L
 //@   ensures[C08] forall i :: 0 <= i && i < L ==> bytesOf(bobj(b))[i] == old(bytesOf(bobj(b)))[i]
+//@   ensures blen(b) >= old(blen(b)) && bobj(b) > 0
 
 //@ func EncodeStruct
 //@   safety[C08]
@@ -201,6 +216,7 @@ package encode
 //@   ensures[C08] 0 <= dataSize && dataSize <= 2147483647 ==> result1 == nil && result0 == uvarintLen(dataSize) + 1 && blen(b) == L + result0
 //@        && isUvarint(bytesOf(bobj(b)), L, result0 - 1, dataSize) && bytesOf(bobj(b))[L + result0 - 1] == 90
 //@   ensures[C08] forall i :: 0 <= i && i < L ==> bytesOf(bobj(b))[i] == old(bytesOf(bobj(b)))[i]
+//@   ensures blen(b) >= old(blen(b)) && bobj(b) > 0
 
 // ---- tables: entries ++ varint(dataSize) ++ varint(tableSize) ++ type
 
@@ -225,6 +241,7 @@ package encode
 //@   loop 1 invariant !big && (forall k :: 0 <= k && k < len(table) ==> table[k].Tag <= 255 && table[k].Offset <= 65535) ==> (forall k :: 0 <= k && k <= rangeindex ==> smallTag(mem(p), L, k) == table[k].Tag && smallOff(mem(p), L, k) == table[k].Offset)
 //@   loop 1 invariant big ==> (forall k :: 0 <= k && k <= rangeindex ==> bigTag(mem(p), L, k) == table[k].Tag && bigOff(mem(p), L, k) == table[k].Offset)
 //@   loop 1 invariant forall i :: 0 <= i && i < L ==> mem(p)[i] == old(bytesOf(bobj(b)))[i]
+//@   ensures blen(b) >= old(blen(b)) && bobj(b) > 0
 
 //@ func encodeListTable
 //@   safety[C08]
@@ -245,6 +262,7 @@ package encode
 //@   loop 1 invariant !big && (forall k :: 0 <= k && k < len(table) ==> table[k].Offset <= 65535) ==> (forall k :: 0 <= k && k <= rangeindex ==> listSmallEnd(mem(p), L, k) == table[k].Offset)
 //@   loop 1 invariant big ==> (forall k :: 0 <= k && k <= rangeindex ==> listBigEnd(mem(p), L, k) == table[k].Offset)
 //@   loop 1 invariant forall i :: 0 <= i && i < L ==> mem(p)[i] == old(bytesOf(bobj(b)))[i]
+//@   ensures blen(b) >= old(blen(b)) && bobj(b) > 0
 
 //@ func EncodeMessageTable
 //@   safety[C08]
@@ -265,6 +283,7 @@ package encode
 //@        && bytesOf(bobj(b))[L + result0 - 1] == ite(big, 81, 80)
 //@   ensures[C08] dataSize > 2147483647 ==> result1 != nil && blen(b) == L
 //@   ensures[C08] forall i :: 0 <= i && i < L ==> bytesOf(bobj(b))[i] == old(bytesOf(bobj(b)))[i]
+//@   ensures blen(b) >= old(blen(b)) && bobj(b) > 0
 
 //@ func EncodeListTable
 //@   safety[C08]
@@ -285,6 +304,7 @@ package encode
 //@        && bytesOf(bobj(b))[L + result0 - 1] == ite(big, 71, 70)
 //@   ensures[C08] dataSize > 2147483647 ==> result1 != nil && blen(b) == L
 //@   ensures[C08] forall i :: 0 <= i && i < L ==> bytesOf(bobj(b))[i] == old(bytesOf(bobj(b)))[i]
+//@   ensures blen(b) >= old(blen(b)) && bobj(b) > 0
 
 // ---- floats: big-endian IEEE bits ++ type
 
@@ -298,6 +318,7 @@ package encode
 //@   ensures[C08,C10] result1 == nil && result0 == 5 && blen(b) == L + 5
 //@   ensures[C08,C10] f32OfBits(be32(bytesOf(bobj(b)), L)) == v && bytesOf(bobj(b))[L + 4] == 40
 //@   ensures[C08] forall i :: 0 <= i && i < L ==> bytesOf(bobj(b))[i] == old(bytesOf(bobj(b)))[i]
+//@   ensures blen(b) >= old(blen(b)) && bobj(b) > 0
 
 //@ func EncodeFloat64
 //@   safety[C08]
@@ -309,3 +330,4 @@ package encode
 //@   ensures[C08,C10] result1 == nil && result0 == 9 && blen(b) == L + 9
 //@   ensures[C08,C10] f64OfBits(be64(bytesOf(bobj(b)), L)) == v && bytesOf(bobj(b))[L + 8] == 41
 //@   ensures[C08] forall i :: 0 <= i && i < L ==> bytesOf(bobj(b))[i] == old(bytesOf(bobj(b)))[i]
+//@   ensures blen(b) >= old(blen(b)) && bobj(b) > 0
